@@ -15,6 +15,8 @@ CLAIMS = {
             NOTE_ENGINE + "; index type/shard count abstracted (C10/C14)"),
     "C02": ("Theorems C02_restart_preserves_mapping / C02_close_open / C02_open_replays_log: for every history (merge-free) with restarts anywhere under arbitrary, independently chosen configurations, all results equal those of a map on which restart is the identity; Open after Close always succeeds; recovery = replay of the log with per-batch buffering (proved via a log invariant maintained by every operation, unbounded histories); correspondence run with restarts (all index types, shard counts, both I/O types, merges included) and a dump-before-close = dump-after-open oracle",
             NOTE_ENGINE + "; histories with merges are not covered by the restart theorem (see C06), only by the correspondence run"),
+    "C13": ("Theorems C13_*: the sync invariant (every rotated file flushed; unflushed bytes of acknowledged Puts/Deletes <= bytesWrite) holds at every return of every call of every history incl. restarts; Always => Put/Delete return with everything flushed; Threshold => fewer than BytesPerSync unflushed Put/Delete bytes; a Sync batch is flushed including its sealing record; Sync()/Close() flush; rotation flushes first - on the durable-length component of the model, whose Sync/Write event sequence is compared with the real engine's I/O events call by call",
+            NOTE_ENGINE + "; fsync/msync = durable is the OS contract"),
     "C14": ("Theorems C14_results_independent_of_configuration / _with_merges: any two runs of one operation sequence under any two configurations, reopened with independently chosen configurations, return the same results (corollary of the refinement theorems: both equal the specification run); the check runs every generated script in lock step under three configurations (index type x shard count x I/O type x file size x sync strategy) on the real engine, diffs the transcripts with each other and with the model",
             NOTE_ENGINE + "; index type and shard count are not parameters of the engine model (one ordered map); byte-identical layout is not part of the theorem"),
     "C17": ("Theorems C17_size_equation / _with_merges / C17_keynum_exact: at every step of every history (an invariant proved by induction over operations, through batches, rotations and restarts under arbitrary configurations) DiskSize = ReclaimableSize + bytes of the live records and KeyNum = number of live keys; the check compares Stat, every live position and every file size with the model after each step and checks the equation directly on the implementation",
